@@ -136,6 +136,52 @@ theorem drainNotifications_good : ∀ (ns : List (Nat × DataRequest)) {s : RSta
       exact ⟨by rw [hN]; exact this.1, this.2.shape sh⟩
     · rw [q.2, q2.2, q1.2]
 
+/-! ### wake-up of parked group members -/
+
+theorem clearWaiters_dinv {s : RState} {i : Nat} {fd : FilterData} (h : DInv s) :
+    DInv (clearWaiters s i fd) ∧ N (clearWaiters s i fd) = N s := by
+  refine ⟨?_, by simp [N, clearWaiters]⟩
+  refine ⟨?_, ?_, ?_, ?_, ?_, ?_, h.grp⟩
+  · intro q hq; show q.2 < (s.datalog.native.set i _).length; rw [List.length_set]; exact h.fidx q hq
+  · intro q hq j hj; show j < (s.datalog.native.set i _).length; rw [List.length_set]; exact h.pf q hq j hj
+  · intro j c hc; show ReqsOK (s.datalog.native.set i _).length _; rw [List.length_set]; exact h.trk j c hc
+  · intro fd' hfd' w hw
+    show w.2.filterIdx < (s.datalog.native.set i _).length ∧ _
+    rw [List.length_set]
+    rcases List.mem_or_eq_of_mem_set hfd' with hm | rfl
+    · exact h.wt fd' hm w hw
+    · simp at hw
+  · intro n hn
+    show n.2.filterIdx < (s.datalog.native.set i _).length ∧ _
+    rw [List.length_set]; exact h.ntf n hn
+  · intro q hq ss hss
+    show ReqsOK (s.datalog.native.set i _).length _ ∧ _
+    rw [List.length_set]; exact h.grv q hq ss hss
+
+/-- the wake-up reaches no panic site: the parked requests belong to live connections -/
+theorem wakeParkedSorted_good : ∀ (logs : List Nat) {s : RState}, DInv s →
+    Good A (fun s' => DInv s' ∧ s'.notifications = s.notifications) (wakeParkedSorted s logs)
+  | [], s, h => ⟨h, rfl⟩
+  | i :: rest, s, h => by
+    rw [wakeParkedSorted_cons]
+    split
+    · exact wakeParkedSorted_good rest h
+    · rename_i fd hfd
+      obtain ⟨h1, hN⟩ := clearWaiters_dinv (i := i) (fd := fd) h
+      have hw : ∀ n ∈ fd.waiters, n.2.filterIdx < N (clearWaiters s i fd) ∧ Live (clearWaiters s i fd) n.1 := fun n hn => by
+        have := h.wt fd (List.mem_of_getElem? hfd) n hn
+        exact ⟨by rw [hN]; exact this.1, this.2⟩
+      gbind (drainNotifications_good (A := A) fd.waiters h1 hw) with s2 h2 q2
+      exact (wakeParkedSorted_good rest q2.1).mono fun s' q => ⟨q.1, by rw [q.2, q2.2]; rfl⟩
+
+theorem wakeParked_good {s : RState} {logs : List Nat} (h : DInv s) :
+    Good A (fun s' => DInv s' ∧ s'.notifications = s.notifications) (wakeParked s logs) :=
+  wakeParkedSorted_good _ h
+
+theorem wakeTurnMoved_good {s : RState} (h : DInv s) :
+    Good A (fun s' => DInv s' ∧ s'.notifications = s.notifications) (wakeTurnMoved s) :=
+  wakeParked_good (s := { s with turnMoved := [] }) (h.congr rfl rfl rfl rfl rfl rfl rfl)
+
 /-! ### acks, datalog -/
 
 theorem commitAck_good {s : RState} {id : Nat} {a : Ack} (h : DInv s) (hl : Live s id) :
